@@ -268,6 +268,6 @@ package encoding
 //@   ensures[err] ret1 != nil ==> ret0 == nil
 //@   modifies nothing
 
-//@ bounded[C15] reflect-cbor : 26 values over 5 struct shapes (flat / one / two levels of embedding / embedded interface holding a struct or a pointer), every subset of 3 optional fields, synthetic structs of 0,1,23,24,25,255,256,257 fields :: boundedReflectCBOR()
-//@ bounded[C15] reflect-json : the same 26 values over 5 struct shapes, JSON side :: boundedReflectJSON()
+//@ bounded[C15,C09] reflect-cbor : 26 values over 5 struct shapes (flat / one / two levels of embedding / embedded interface holding a struct or a pointer), every subset of 3 optional fields, synthetic structs of 0,1,23,24,25,255,256,257 fields :: boundedReflectCBOR()
+//@ bounded[C15,C09,C12] reflect-json : the same 26 values over 5 struct shapes, JSON side :: boundedReflectJSON()
 //@ bounded[C05] populate-no-panic : every truncation of 31 CBOR and 31 JSON seed documents, every value of each of the first 6 bytes of each CBOR seed :: boundedPopulateNoPanic()
